@@ -517,7 +517,10 @@ def check(ctx):
     path = lte.data["args"][0] if lte.data["args"] else None
     want = tm.ite(A("transform_left"), A("transform_left"),
                   A("transform_right"))
-    ok = path is want
+    ok = path is want or (
+        # `left or right`: the first one that is given — the same choice
+        path is not None and path.op == "boolop" and path.args[0] == "Or" and
+        tuple(path.args[1]) == (A("transform_left"), A("transform_right")))
     ctx.ob("C15.3", lte, ok,
            "transform file: --transform_left if given else "
            "--transform_right" if ok else
@@ -602,6 +605,10 @@ def check(ctx):
     ctx.ob("C15.4", f, len(touched) >= 3,
            "reference reaches exactly its three permitted mutators",
            key="C15.4:count", nontrivial=False,
+           # (fewer *recognised* sites — a generator that yields the
+           # reference among the trajectories — is no evidence of a missing
+           # step: C15.9 decides who each step is applied to)
+           evidence=False,
            sites=[f"{q}@{e.where}" for e, q, _ in touched])
 
     # --------------------------------------------------------------- C15.5
@@ -1184,6 +1191,11 @@ def _subjects(ctx, f, res, step_events, ref_traj):
                         f"the skipped call is a no-op")
         got = set().union(*[of(e) for e in step_events[name]])
         ok = want <= got
+        if not ok and got <= {"other", "none"}:
+            ctx.undecidable("C15.9", step_events[name][0], f"`{name}`: what "
+                            f"it is applied to is not read (a helper / "
+                            f"generator hands out the trajectories)")
+            continue
         ctx.ob("C15.9", step_events[name][0], ok,
                f"`{name}` is applied to "
                f"{' and '.join(sorted(want)).replace('est', 'every given trajectory').replace('ref', 'the reference')}"
